@@ -39,22 +39,29 @@ def render (wasCreated : Bool) (w : Wire Spec) : String :=
     let js := (bs.map fun b => uids b .job).filter (· ≠ [])
     head ++ " " ++ joinWith " " ((gs.map fun b => s!"G[{ids b}]@{nbytes b}") ++ (js.map fun b => s!"J[{ids b}]@{nbytes b}"))
 
-/-- `round <maxBytes> <maxN> <g<size>|j<size>>*`: create the job groups / jobs in that order, then `submit` -/
+/-- `round <maxBytes> <maxN> [f<k>] <g<size>|j<size>>*`: create the job groups / jobs in that order, then `submit`; with `f<k>` the
+k-th request of that submit is answered with an error -/
 def handleRound (d : DState) (ws : List String) : Option (DState × String) := do
   match ws with
   | mb :: mn :: ops =>
     let maxBytes ← mb.toNat?
     let maxN ← mn.toNat?
+    let failAt : Option Nat := match ops with
+      | o :: _ => if o.startsWith "f" then (o.drop 1).toNat? else none
+      | [] => none
+    let ops := if failAt.isSome then ops.drop 1 else ops
     let d ← ops.foldlM (fun (d : DState) (o : String) => do
       let size ← (o.drop 1).toNat?
       let spec : Spec := (d.next, size)
       if o.startsWith "g" then pure { st := (step (fun p : Spec => p.2) d.st (.createGroup spec)).1, next := d.next + 1 }
       else if o.startsWith "j" then pure { st := (step (fun p : Spec => p.2) d.st (.createJob spec)).1, next := d.next + 1 }
       else none) d
-    let (st', r) := step (fun p : Spec => p.2) d.st (.submit maxBytes maxN)
+    let (st', r) := step (fun p : Spec => p.2) d.st
+      (match failAt with | some k => .submitFailing maxBytes maxN k | none => .submit maxBytes maxN)
     let out := match r with
       | some .raised => "raised"
       | some .quiet => "quiet"
+      | some .failed => s!"failed c={if st'.created then 1 else 0}"
       | some (.sent w) => render d.st.created w
       | none => "bad-op"
     pure ({ d with st := st' }, out)
